@@ -1,6 +1,7 @@
 package fsad
 
 import (
+	"strings"
 	"bytes"
 	"fmt"
 	"math/rand"
@@ -20,6 +21,10 @@ type MConfig struct {
 	Seed      int64
 	// Repeat: each read-only query is repeated this many times (sync.Map iteration orders)
 	Repeat int
+	// Faults: every Rename is re-run on fresh copies of the current state with one primitive call of a constituent
+	// file system failing: it must either do all of its work or fail leaving every constituent as it was
+	Faults    bool
+	PropFault string // attribution of what the fault enumeration finds (no listed property quantifies over faults in mount.FS)
 }
 
 type MAdapter struct{ Cfg MConfig }
@@ -33,10 +38,20 @@ type MInst struct {
 	probe *Inst                  // reuses the FSCore call/result machinery on the mount FS
 	root0 *tla.Value             // initial tree of the root FS (template for freshly mounted file systems)
 	dirty bool
+	state  *tla.Value // model state before the call (engine.StateAware)
+	faults []string
+	ctl    *faultCtl // non-nil: every constituent file system is wrapped and fails its ctl.failAt-th primitive call
 }
 
+// SetState receives the model state the instance is in.
+func (in *MInst) SetState(s *tla.Value) { in.state = s }
+
 func (a *MAdapter) New(init *tla.Value) (engine.Instance, error) {
-	in := &MInst{cfg: &a.Cfg, parts: map[int64]hackpadfs.FS{}}
+	return a.build(init, nil)
+}
+
+func (a *MAdapter) build(init *tla.Value, ctl *faultCtl) (*MInst, error) {
+	in := &MInst{cfg: &a.Cfg, parts: map[int64]hackpadfs.FS{}, ctl: ctl}
 	mkPart := func(id int64, tree *tla.Value) (hackpadfs.FS, error) {
 		fs, err := mem.NewFS()
 		if err != nil {
@@ -48,6 +63,9 @@ func (a *MAdapter) New(init *tla.Value) (engine.Instance, error) {
 			}
 		}
 		in.parts[id] = fs
+		if ctl != nil {
+			return &faultFS{in: fullMem{fs}, c: ctl}, nil // what is mounted fails on demand; in.parts keeps the plain FS for projection
+		}
 		return fs, nil
 	}
 	var rootTree *tla.Value
@@ -99,6 +117,10 @@ func (in *MInst) Apply(call *tla.Value) any {
 	if call.F("op").S == "addmount" {
 		return in.addMount(call)
 	}
+	in.faults = nil
+	if in.cfg.Faults && in.state != nil && in.ctl == nil && call.F("op").S == "rename" {
+		in.enumerateFaults(call)
+	}
 	o := in.probe.Apply(call).(Obs)
 	// routing must not depend on the iteration order of the mount table: repeat pure queries
 	switch call.F("op").S {
@@ -112,6 +134,58 @@ func (in *MInst) Apply(call *tla.Value) any {
 		}
 	}
 	return o
+}
+
+// enumerateFaults re-runs the Rename once per primitive call it makes on the constituent file systems, on fresh copies
+// of the current state, failing exactly that call.
+func (in *MInst) enumerateFaults(call *tla.Value) {
+	ad := &MAdapter{Cfg: *in.cfg}
+	closure, _ := in.probe.closure()
+	snapshot := func(x *MInst) string {
+		var ids []int64
+		for id := range x.parts {
+			ids = append(ids, id)
+		}
+		sort.Slice(ids, func(i, j int) bool { return ids[i] < ids[j] })
+		var b strings.Builder
+		for _, id := range ids {
+			tree, _ := Project(x.parts[id], closure)
+			fmt.Fprintf(&b, "#%d{%s}", id, describe(tree))
+		}
+		return b.String()
+	}
+	run := func(failAt int64) (Obs, *faultCtl, string, string) {
+		ctl := &faultCtl{}
+		x, err := ad.build(in.state, ctl)
+		if err != nil {
+			panic(err)
+		}
+		before := snapshot(x)
+		ctl.count, ctl.failAt, ctl.log = 0, failAt, nil
+		o := x.probe.Apply(call).(Obs)
+		return o, ctl, before, snapshot(x)
+	}
+	o0, c0, _, after0 := run(0)
+	n := c0.count
+	if n > 60 {
+		n = 60
+	}
+	for k := int64(1); k <= n; k++ {
+		o, ctl, before, after := run(k)
+		if !ctl.fired.Load() {
+			continue
+		}
+		switch {
+		case o.Panic != "":
+			in.faults = append(in.faults, "panic-after-fault "+ctl.what)
+		case o.Err == nil && (o0.Err != nil || after != after0):
+			in.faults = append(in.faults, "fault-swallowed "+ctl.what)
+		case o.Err != nil && after != before && after != after0:
+			in.faults = append(in.faults, "failed-half-done "+ctl.what)
+		case o.Err != nil && after != before:
+			in.faults = append(in.faults, "failed-but-done "+ctl.what)
+		}
+	}
 }
 
 func (in *MInst) addMount(call *tla.Value) (o Obs) {
@@ -149,6 +223,14 @@ func (in *MInst) addMount(call *tla.Value) (o Obs) {
 
 func (in *MInst) CheckResult(call, tr *tla.Value, obs any) []engine.Div {
 	divs := in.probe.CheckResult(call, tr, obs)
+	seen := map[string]bool{}
+	sort.Strings(in.faults)
+	for _, f := range in.faults {
+		if !seen[f] {
+			seen[f] = true
+			divs = append(divs, engine.Div{Prop: in.cfg.PropFault, Sig: in.probe.sig(call, tr, f), Detail: "Rename re-run on a copy of the state with that primitive call failing"})
+		}
+	}
 	if in.probe.dirty {
 		in.dirty = true
 	}
